@@ -75,7 +75,14 @@ class Catalogue(object):
                     ('ny_fold', NY.localize(DT(2021, 11, 7, 1, 30, 0), is_dst=False)),
                     ('ny_fold_dst', NY.localize(DT(2021, 11, 7, 1, 30, 0), is_dst=True)),
                     ('kolkata', pytz.timezone('Asia/Kolkata').localize(DT(2000, 2, 29, 23, 59, 59, 999999))),
-                    ('sydney', pytz.timezone('Australia/Sydney').localize(DT(1999, 12, 31, 0, 0, 0, 1)))]
+                    ('sydney', pytz.timezone('Australia/Sydney').localize(DT(1999, 12, 31, 0, 0, 0, 1))),
+                    # the same offset reached by different zones in different seasons
+                    ('adelaide_jan', pytz.timezone('Australia/Adelaide').localize(DT(2021, 1, 15, 12, 0, 0))),
+                    ('lordhowe_jul', pytz.timezone('Australia/Lord_Howe').localize(DT(2021, 7, 15, 12, 0, 0))),
+                    ('berlin_jul', B.localize(DT(2021, 7, 15, 12, 0, 0))),
+                    ('cairo_jan', pytz.timezone('Africa/Cairo').localize(DT(2021, 1, 15, 12, 0, 0))),
+                    ('adak_jul', pytz.timezone('America/Adak').localize(DT(2021, 7, 15, 12, 0, 0))),
+                    ('anchorage_jan', pytz.timezone('America/Anchorage').localize(DT(2021, 1, 15, 12, 0, 0)))]
         if kind == 'coord':
             C = hs.Coordinate
             return [('zero', C(0, 0)), ('max', C(90, 180)), ('min', C(-90, -180)), ('richmond', C(37.545, -77.449)),
